@@ -905,6 +905,14 @@ def gen_patch_case(rng, force_channels=None):
         case["C"] = force_channels
     H, W = case["spatial"] = [rng.randint(4, 9), rng.randint(4, 9)]
     ph, pw = rng.choice([1, 2, 3, 3, 4, 5]), rng.choice([1, 2, 2, 3, 4, 5])
+    if rng.random() < 0.15:
+        # a patch larger than the image on one or both axes: it overhangs two opposite borders at once, the valid
+        # block sits in the middle of the patch (small images, e.g. pyramid tops, meet this)
+        H, W = case["spatial"] = [rng.randint(3, 5), rng.randint(3, 5)]
+        ph = rng.choice([ph, H + rng.randint(1, 4)])
+        pw = rng.choice([pw, W + rng.randint(1, 4)]) if ph <= H or rng.random() < 0.5 else pw
+        if ph <= H and pw <= W:
+            ph = H + 2
     case["patch_shape"] = [ph, pw]
     kind = rng.choice(["integer"] * 6 + ["frac"] * 3 + ["tie"])
     n = rng.randint(1, 3) if rng.random() > 0.03 else 0     # now and then no centre at all
